@@ -24,7 +24,7 @@ func (C04) Plan(tier string) core.Plan {
 
 func (C04) Info() core.Info {
 	return core.Info{
-		Rule:        "planned (derivable by construction) worlds with conversion chains of depth 1-4, diamonds, multi-input, struct-returning, built and run-once converters and noise; fault plan: 1-3 (party, k-th execution) entries return a fresh error value (now and then a typed-nil pointer of an error type, which is a non-nil error, or an unsatisfied-argument error of the converter's own making), including the target itself; 1-2 operations per history: Call, and sometimes the same resolution through Redefine + a call of the redefined function, or Convert. Oracle over the ordered party log of each call: the first failing execution's error value is what Call returns (pointer identity), nothing runs after it, the target does not run; no error => no execution failed. Non-trivial: a fault actually fired; distinct = distinct (world shape incl. fault plan, event-log hash)",
+		Rule:        "planned (derivable by construction) worlds with conversion chains of depth 1-4, diamonds, multi-input, struct-returning, built and run-once converters and noise; fault plan: 1-3 (party, k-th execution) entries return a fresh error value (now and then a typed-nil pointer of an error type, which is a non-nil error, or an unsatisfied-argument error of the converter's own making), including the target itself; 1-2 operations per history: Call, and sometimes the same resolution through Redefine + a call of the redefined function, or Convert. Oracle over the ordered party log of each call: the first failing execution's error value is what Call returns (pointer identity), nothing runs after it, the target does not run; no error => no execution failed; further fault kind: the converter's own one-entry error list; history: run-once target succeeds, then a converter fails in the next call. Non-trivial: a fault actually fired; distinct = distinct (world shape incl. fault plan, event-log hash)",
 		Assumptions: []string{"injected errors are unique pointer values, so identity comparison is exact"},
 		Probes:      []string{"fault_fired_conv_error", "c04_failed_at_depth_ge2", "c04_failed_multi_input", "c04_failed_struct_returning", "c04_failed_built", "c04_failed_once", "c04_target_error", "c04_redefined_calls", "c04_typed_nil_error", "c04_own_unsatisfied_error", "c04_own_error_list", "c04_failed_after_once_target_ran", "c04_no_error_calls", "s1_nonidentity_perms"},
 		Real:        realComponents,
